@@ -619,14 +619,14 @@ def run(ctx):
     for fl in flavours(ctx):
         ctx.unit = fl
         ctx.doc('C17.6', 'native API forwarding: each public entry point of this property reaches the implementation of the same name with its parameters in order and returns its result (sibling slips such as trylock -> lock, signal -> broadcast, swapped arguments)')
-        lib.native_forwarding(ctx, 'C17.6', fl, lambda n: n.startswith('myth_create_join_'), floor=3)
+        ctx.attempt(lib.native_forwarding, ctx, 'C17.6', fl, lambda n: n.startswith('myth_create_join_'), floor=3)
         v = ctx.view(NATIVE, roots=['myth_create_join_various_ex_aux', 'myth_create_join_various_ex_body', 'myth_create_join_many_ex_body'],
                      stops=('myth_create_ex_body', 'myth_join_body', 'myth_self', 'myth_self_body'), flavour=fl)
-        rule1_c(ctx, v)
-        rule2_strides(ctx, v)
-        rule4_join(ctx, v)
+        ctx.attempt(rule1_c, ctx, v)
+        ctx.attempt(rule2_strides, ctx, v)
+        ctx.attempt(rule4_join, ctx, v)
     ctx.unit = 'mtbb'
-    rule5_mtbb(ctx)
+    ctx.attempt(rule5_mtbb, ctx)
 
 
 SCHED = 'src/myth_sched_func.h'
